@@ -1,0 +1,38 @@
+//go:build verif
+
+// Contracts for package detection, checked by /verif/govc (comment-only file).
+package detection
+
+//@ pred occurs(t *topology.FunctionTopology, r string) = exists k in keys(t.CallSignatures) :: contains(k, r)
+//@ pred wfSig(s Signature) = finite(s.EntropyScore) && !isNaN(s.EntropyTolerance) && s.EntropyTolerance >= 0
+//@ pred wfTopo(t *topology.FunctionTopology) = t != nil && finite(t.EntropyScore)
+
+//@ func GenerateTopologyHash
+//@   trusted
+
+//@ func MatchCalls
+//@   requires topo != nil
+//@   ensures [C08.veto] (exists j in 0..len(required) :: !occurs(topo, required[j])) <==> len(missing) > 0
+//@   ensures [C08.range] unit(score)
+//@   loop 1 invariant 0 <= #i && #i <= len(required)
+//@   loop 1 invariant len(matched) + len(missing) == #i
+//@   loop 1 invariant (exists j in 0..#i :: !occurs(topo, required[j])) <==> len(missing) > 0
+//@   loop 2 invariant forall k in #visited :: !contains(k, req)
+
+//@ func MatchStrings
+//@   requires topo != nil
+//@   ensures [C08.range] unit(score)
+//@   loop 1 invariant 0 <= #i && #i <= len(patterns) && len(matched) <= #i
+
+//@ func ComputeTopologySimilarity
+//@   requires topo != nil
+//@   ensures [C08.range] unit(result)
+//@   loop 1 invariant 0 <= #i && #i <= len(scores) && finite(total) && 0 <= total && total <= #i
+//@   loop 1 invariant forall j in 0..len(scores) :: unit(scores[j])
+
+//@ func MatchSignature
+//@   requires wfTopo(topo) && wfSig(sig) && !isNaN(entropyTolerance) && entropyTolerance >= 0
+//@   ensures [C08.range] unit(result.Confidence)
+//@   ensures [C08.veto] (exists j in 0..len(sig.IdentifyingFeatures.RequiredCalls) :: !occurs(topo, sig.IdentifyingFeatures.RequiredCalls[j])) ==> result.Confidence == 0.0
+//@   loop 1 invariant 0 <= #i && #i <= len(scores) && finite(total) && 0 <= total && total <= #i
+//@   loop 1 invariant forall j in 0..len(scores) :: unit(scores[j])
